@@ -26,7 +26,7 @@ inductive Res (α : Type) where
   | ok (a : α)
   | err (msg : String)
   | panic (site : String)
-  deriving Repr
+  deriving Repr, DecidableEq
 
 namespace Res
 
@@ -94,7 +94,5 @@ decreasing_by omega
 def beFixed : Nat → Nat → Bytes
   | 0, _ => []
   | w + 1, n => beFixed w (n / 256) ++ [UInt8.ofNat (n % 256)]
-
-def utf8 (s : Str) : Bytes := (String.ofList s).toUTF8.toList
 
 end Hdw
